@@ -34,6 +34,13 @@ func runC17(w *World, r *Report) {
 	c17NoState(w, r)
 	c17NilErr(w, r)
 	c17SignVerifyKey(w, r)
+	r.Rule("C17/WIRING", "the verification options (Verify, Keyring, VerifyLater) are fed only from the options of the same name and bound to their own command-line flags", 2)
+	checkWiring(w, r, "C17/WIRING", map[string]bool{"Verify": true, "Keyring": true, "VerifyLater": true})
+	checkFlagBinding(w, r, "C17/WIRING", map[string]bool{"Verify": true, "Keyring": true, "VerifyLater": true})
+	r.Rule("C17/ERROR-KEPT", "where dependencies are downloaded and verified in a loop, the error kept for the end is never overwritten by a value that may be nil (a later success cannot erase a verification failure)", 0)
+	if errOverwritten(w, r, "C17/ERROR-KEPT", []string{"pkg/downloader"}) == 0 {
+		r.OKTrivial("C17/ERROR-KEPT", "none", "-", "no error is carried across loop iterations in pkg/downloader (a failure ends the loop)")
+	}
 }
 
 func c17Verify(w *World, r *Report) {
